@@ -7,6 +7,7 @@ pub mod c01;
 pub mod c02;
 pub mod c03;
 pub mod c04;
+pub mod c05;
 
 pub struct PropDef {
     pub id: &'static str,
@@ -23,7 +24,7 @@ pub struct PropDef {
 }
 
 pub fn all() -> Vec<PropDef> {
-    vec![c01::def(), c02::def(), c03::def(), c04::def()]
+    vec![c01::def(), c02::def(), c03::def(), c04::def(), c05::def()]
 }
 
 pub fn get(id: &str) -> Option<PropDef> {
